@@ -70,7 +70,7 @@ TEXT = {
           "in normal form it is in the same normal form - well-formed intervals with gaps that cannot be closed (C13_intersect_nfs; "
           "cwi_bounds: the piece handed back starts at the later lower bound and ends at the earlier upper bound), so the theorems "
           "about normal forms apply to everything built by unions and intersections; a set in normal form that passes "
-          "lp_feasibility_set_is_point_int contains exactly one integer (C13_isPointInt_sound: the early-exit count agrees with the "
+          "lp_feasibility_set_is_point_int contains exactly one integer, and conversely (C13_isPointInt_iff: the early-exit count agrees with the "
           "saturating count) and the interval of lp_feasibility_set_to_interval contains the whole set (C13_toInterval). The status is also "
           "complete: for non-empty operands in normal form it is S1 exactly when the first operand is contained in the second "
           "(C13_status_s1_iff), S2 exactly when the second is contained in the first and the first not in the second (C13_status_s2_iff), and "
